@@ -26,7 +26,7 @@ RULE = (
     "with >= 2 frames still unread."
 )
 MUST_HIT = ["prefix_cut_inside_token", "flush_shorter_token", "handed_before_eos", "audio_lazy", "audio_overlapping_reader",
-            "long_stream_sampled_prefixes"]
+            "long_stream_sampled_prefixes", "audio_max_read_ends_inside_a_window", "audio_lazy_named_pipe"]
 ASSUMPTIONS = ["read-counting harness source (vf/tok.ListSource)"]
 
 BOUNDS = {
